@@ -315,7 +315,7 @@ def r3(ctx: Ctx, rep: Report):
 
 # ----------------------------------------------------------------------- R4
 def template_fields(call: ast.Call) -> Optional[Tuple[str, List[ast.expr]]]:
-    """bytes.fromhex("...".format(args))  ->  (template, args)"""
+    """bytes.fromhex("...".format(args)) or bytes.fromhex(f"...{x:04x}...")  ->  (template, args)"""
     if not (isinstance(call, ast.Call) and norm(call.func) == "bytes.fromhex" and call.args):
         return None
     a = call.args[0]
@@ -323,6 +323,18 @@ def template_fields(call: ast.Call) -> Optional[Tuple[str, List[ast.expr]]]:
         return a.value, []
     if isinstance(a, ast.Call) and isinstance(a.func, ast.Attribute) and a.func.attr == "format" and isinstance(a.func.value, ast.Constant):
         return a.func.value.value, list(a.args)
+    if isinstance(a, ast.JoinedStr):
+        tmpl, args = "", []
+        for v in a.values:
+            if isinstance(v, ast.Constant):
+                tmpl += str(v.value)
+            elif isinstance(v, ast.FormattedValue) and isinstance(v.format_spec, ast.JoinedStr) and len(v.format_spec.values) == 1 \
+                    and isinstance(v.format_spec.values[0], ast.Constant) and v.conversion == -1:
+                tmpl += "{:%s}" % v.format_spec.values[0].value
+                args.append(v.value)
+            else:
+                return None
+        return tmpl, args
     return None
 
 
@@ -362,12 +374,30 @@ def field_value(layout, off: int, n: int):
     return None
 
 
-def recogniser_conjuncts(fn: FuncInfo) -> List[ast.expr]:
+def recogniser_conjuncts(fn: FuncInfo, ctx: Optional[Ctx] = None, depth: int = 0) -> List[ast.expr]:
+    """Conjuncts of the single returned expression; a conjunct that calls another predicate method on self
+    (a helper holding the shared conjuncts) is replaced by that method's conjuncts."""
+    from ..astutil import expand_locals
     rets = [n for n in ast.walk(fn.node) if isinstance(n, ast.Return)]
     if len(rets) != 1:
         return []
-    v = rets[0].value
-    return list(v.values) if isinstance(v, ast.BoolOp) and isinstance(v.op, ast.And) else [v]
+    v = expand_locals(rets[0].value, fn.node)
+    cjs = list(v.values) if isinstance(v, ast.BoolOp) and isinstance(v.op, ast.And) else [v]
+    out: List[ast.expr] = []
+    for cj in cjs:
+        c = call_chain(cj) if isinstance(cj, ast.Call) else None
+        if c and len(c) == 2 and c[0] == "self" and not cj.args and fn.cls is not None and ctx is not None and depth < 3:
+            m = ctx.prog.find_method(fn.cls, c[1])
+            if m is not None:
+                inner = recogniser_conjuncts(m, ctx, depth + 1)
+                if inner:
+                    out.extend(inner)
+                    continue
+        if isinstance(cj, ast.Compare) and len(cj.ops) == 1 and isinstance(cj.ops[0], ast.In) and isinstance(cj.comparators[0], (ast.Tuple, ast.List, ast.Set)):
+            cj = ast.BoolOp(op=ast.Or(), values=[ast.Compare(left=cj.left, ops=[ast.Eq()], comparators=[e]) for e in cj.comparators[0].elts])
+            ast.fix_missing_locations(cj)
+        out.append(cj)
+    return out
 
 
 def r4(ctx: Ctx, rep: Report):
@@ -385,8 +415,9 @@ def r4(ctx: Ctx, rep: Report):
             rec = ci.methods.get("is_eco_%s_mode" % kind)
             if enc is None or rec is None:
                 raise AnalysisError("%s.encode_%s / is_eco_%s_mode missing" % (cname, kind, kind))
+            from ..astutil import expand_locals
             rets = [n for n in ast.walk(enc.node) if isinstance(n, ast.Return)]
-            tf = template_fields(rets[0].value) if len(rets) == 1 else None
+            tf = template_fields(expand_locals(rets[0].value, enc.node)) if len(rets) == 1 else None
             key = "template:%s.encode_%s" % (cname, kind)
             if tf is None:
                 rep.violation("C19.R4", key, enc.loc(), "%s.encode_%s is not bytes.fromhex(<template>.format(...))" % (cname, kind))
@@ -396,7 +427,7 @@ def r4(ctx: Ctx, rep: Report):
                 rep.violation("C19.R4", key, enc.loc(), "%s.encode_%s: template %r does not describe the %d bytes of the group" % (cname, kind, tf[0], size))
                 continue
             problems = []
-            for cj in recogniser_conjuncts(rec):
+            for cj in recogniser_conjuncts(rec, ctx):
                 problems += _check_conjunct(prog, enc, cj, lay, fields, kind)
             rep.check(not problems, "C19.R4", key, enc.loc(), "%s.encode_%s satisfies every conjunct of is_eco_%s_mode" % (cname, kind, kind),
                       bad="%s.encode_%s produces a group that is_eco_%s_mode does not recognise: %s" % (cname, kind, kind, "; ".join(problems)))
